@@ -151,6 +151,32 @@ func runC09(c *Ctx) {
 	})
 	c.AddCount("exhaustive_histories", total)
 	c.AddCount("op_alphabet", n)
+	// Thorough tier: all histories of 4 calls over a reduced alphabet (per method
+	// one ordinary, one line-feed/marker and one invalid payload).
+	if c.thorough() {
+		var red [4][]Op
+		for pos := 0; pos < 4; pos++ {
+			for _, m := range opMethods {
+				v, inv := opVariants(m, pos)
+				red[pos] = append(red[pos], v[0])
+				if len(v) > 4 {
+					red[pos] = append(red[pos], v[4])
+				}
+				if len(inv) > 0 {
+					red[pos] = append(red[pos], inv[0])
+				}
+			}
+		}
+		m := int64(len(red[0]))
+		c.ParallelFor(m*m*m*m, func(w *Worker, i int64) {
+			h := []Op{red[0][i%m], red[1][(i/m)%m], red[2][(i/(m*m))%m], red[3][i/(m*m*m)]}
+			c09check(w, h)
+			if historyNontrivial(h) {
+				w.Nontrivial(hashStr(historyString(h)))
+			}
+		})
+		c.AddCount("exhaustive_histories_len4_reduced_alphabet", m*m*m*m)
+	}
 	// Marker assembly: the three bytes of a marker delivered by three
 	// separate single-byte calls (every combination of 7 carriers), in every
 	// combination of surrounding context.
